@@ -1756,7 +1756,9 @@ func (s *Netceptor) handleServiceAdvertisement(data []byte, receivedFrom string)
 	}
 	curSvc, keepCur := n[si.Service]
 	if keepCur {
-		if si.Time.After(curSvc.Time) {
+		// A withdrawal carrying the same timestamp as the advertisement we hold wins the tie (coarse clocks
+		// can stamp the last periodic advertisement and the withdrawal identically).
+		if si.Time.After(curSvc.Time) || (si.Cancel && si.Time.Equal(curSvc.Time)) {
 			keepCur = false
 		}
 	}
